@@ -2,6 +2,7 @@
     Executable definitions only.  The generated translation of the Python source
     (HailG.C19.Gen) is proved equal to this model in Lemmas.v. *)
 From HailV Require Import Common.Prelude.
+From Coq Require Permutation.
 Open Scope Z_scope.
 
 Section Bunches.
@@ -84,8 +85,32 @@ Section Submit.
                | GroupsCreate _ => 5 | JobsCreate _ => 6 end.
   Definition encode (t : list request) : list (Z * list A * list A) :=
     map (fun r => (req_code r, req_groups r, req_jobs r)) t.
+
+  (** *** happens-before.  A submission is a list of STAGES: every request of a stage is started only after every
+      request of every earlier stage has COMPLETED (the code awaits it); the requests of one stage are in flight together.
+      [_submit_job_group_bunches] awaits each job-group request before sending the next (one stage per request: a job group
+      must reach the server after its parent); [_submit_job_bunches] gathers the job requests (one stage for all of
+      them); the commit is awaited last. *)
+  Definition singletons (l : list request) : list (list request) := map (fun r => [r]) l.
+
+  Definition slow_stages (created : bool) (G J : list request) : list (list request) :=
+    [if created then CreateUpdate else OpenBatch] :: singletons G ++ [J; [Commit]].
+
+  Definition submit_stages (created : bool) (bunches : list (list tagged)) : list (list request) :=
+    match bunches with
+    | [] => if created then [] else [[OpenBatch]]
+    | [b] => [[if created then UpdateFast (groups_of b) (jobs_of b) else CreateFast (groups_of b) (jobs_of b)]]
+    | _ => slow_stages created (group_reqs bunches) (job_reqs bunches)
+    end.
+
+  Definition encode_stages (s : list (list request)) : list (list (Z * list A * list A)) := map encode s.
 End Submit.
 Arguments request : clear implicits.
+
+(** The orders in which the server can RECEIVE the requests of a staged submission: any order inside a stage,
+    stage after stage. *)
+Definition linearization {A : Type} (stages : list (list (request A))) (t : list (request A)) : Prop :=
+  exists stages', Forall2 (@Permutation.Permutation (request A)) stages' stages /\ t = concat stages'.
 
 (** The whole client pipeline: tag, bunch, submit. *)
 Definition submit_specs {A : Type} (bunch : list (@tagged A) -> list (@tagged A) -> list (list (@tagged A)))
